@@ -4047,11 +4047,14 @@ class SchemaValidator:
             )
             if (
                 import_id is None
-                or import_id in stitched_imports
+                # each import entry is stitched once; different entries may import the same file
+                or any(schema_import is stitched for stitched in stitched_imports)
                 or import_id not in self.schema["imported_schemas"]
             ):
                 # nothing to stitch
                 return
+
+            stitched_imports.append(schema_import)
 
             if "imports" in self.schema["imported_schemas"][import_id]:
                 for nested_import in self.schema["imported_schemas"][import_id][
@@ -4141,8 +4144,6 @@ class SchemaValidator:
                     self.schema["checkpoints"].append(new_checkpoint)
                     self._generated_checkpoints.append(new_checkpoint)
                     next_checkpoint_id += 1
-
-                stitched_imports.append(import_id)
 
         for schema_import in self.schema["imports"]:
             _stitch_imported_schema_recursive(schema_import)
